@@ -109,8 +109,13 @@ def gen_case(rnd):
         if rep:
             case['rep'] = rep
             if core.rep_wants_integers(rep):
-                for k in ('east1', 'north1', 'east2', 'north2'):
-                    case[k] = float(round(case[k]))
+                whole = {k: float(round(case[k])) for k in ('east1', 'north1', 'east2', 'north2')}
+                # whole metres only where the line stays a line: a short line rounded to whole metres may collapse to one
+                # point (or to a fraction of its length), about which the property says nothing
+                if length >= 10.0:
+                    case.update(whole)
+                else:
+                    del case['rep']
         shape = core.choose_shape(rnd)
         if shape:
             case['shape'] = shape
@@ -166,6 +171,11 @@ def judge(ns, ctx, case, linesf_mon=None):
     south = hemi == 'south'
     la1, lo1, k1, g1 = from_grid(z1, e1, n1, south, a, invf)
     la2, lo2, k2, g2 = from_grid(z2, e2, n2, south, a, invf)
+    if geod.chord(la1, lo1, la2, lo2, a, invf) < 0.5:
+        # the two grid points are (all but) the same ground point: no line, no bearing - the property speaks of lines of 1 m
+        # and more (a generated 1 m line delivered in whole metres can end up here)
+        ctx.count('not_judged:points_closer_than_half_a_metre')
+        return
     ctx.judged()
     ctx.count('adjacent_zone_cases' if z1 != z2 else 'same_zone_cases')
     ctx.count('southern_cases' if south else 'northern_cases')
